@@ -18,12 +18,13 @@ class Exec:
 class Config:
     """One closed driver configuration: files on disk + argv + scheduler flags."""
 
-    def __init__(self, name, workdir, args, sources, sigint=False, hooks=False, postops=False, step_limit=20000, exec_timeout=60, policy=None, once=False):
+    def __init__(self, name, workdir, args, sources, sigint=False, hooks=False, postops=False, step_limit=20000, exec_timeout=60, policy=None, once=False, stdout_closed=False):
         self.name, self.workdir, self.args, self.sources = name, workdir, args, sources
         self.sigint, self.hooks, self.postops = sigint, hooks, postops
         self.step_limit, self.exec_timeout = step_limit, exec_timeout
         self.policy = policy
         self.once = once
+        self.stdout_closed = stdout_closed      # stdout is a pipe whose reader is gone: every write fails with EPIPE
         self._n = 0
         self._lock = threading.Lock()
 
@@ -52,9 +53,19 @@ class Config:
         x.prefix_len = len(prefix)
         t0 = time.time()
         try:
-            p = subprocess.run([common.S4V] + self.args, cwd=self.workdir, env=env, stdin=subprocess.DEVNULL,
-                               stdout=subprocess.PIPE, stderr=subprocess.PIPE, timeout=self.exec_timeout)
-            x.rc, x.out, x.err, x.timed_out = p.returncode, p.stdout, p.stderr, False
+            if self.stdout_closed:
+                rfd, wfd = os.pipe()
+                os.close(rfd)
+                try:
+                    p = subprocess.run([common.S4V] + self.args, cwd=self.workdir, env=env, stdin=subprocess.DEVNULL,
+                                       stdout=wfd, stderr=subprocess.PIPE, timeout=self.exec_timeout)
+                finally:
+                    os.close(wfd)
+                x.rc, x.out, x.err, x.timed_out = p.returncode, b"", p.stderr, False
+            else:
+                p = subprocess.run([common.S4V] + self.args, cwd=self.workdir, env=env, stdin=subprocess.DEVNULL,
+                                   stdout=subprocess.PIPE, stderr=subprocess.PIPE, timeout=self.exec_timeout)
+                x.rc, x.out, x.err, x.timed_out = p.returncode, p.stdout, p.stderr, False
         except subprocess.TimeoutExpired as e:
             x.rc, x.out, x.err, x.timed_out = None, e.stdout or b"", e.stderr or b"", True
         x.wall = time.time() - t0
